@@ -24,11 +24,17 @@ TRUSTED_BASE = [
     "axioms of every property theorem ⊆ {propext, Classical.choice, Quot.sound} (printed by Rbacx/Audit.lean on every run)",
     "hand-written model lean/Rbacx/Model/*.lean, tied to /repo by the correspondence harness (differential, this run) and harness/extract.py",
     "oracles computed by the harness without calling rbacx: CPython str()/float()/datetime parsing, json, hashlib",
-    "where a check uses the source-to-Lean translation (C02, C03, C17): harness/pytolean.py and the meaning of Python's operations in "
-    "lean/Rbacx/Model/PyLib.lean, both validated against CPython on every run (Run/SrcEval.lean, Run/SrcEvalFrag.lean); for the translated "
+    "where a check uses the source-to-Lean translation (C02, C03, C05, C17): harness/pytolean.py and the meaning of Python's operations in "
+    "lean/Rbacx/Model/PyLib.lean, both validated against CPython on every run (Run/SrcEval.lean, Run/SrcEvalFrag.lean, Run/SrcEvalTarget.lean); "
+    "for the translated target matcher match_resource / _is_strict (C05) the trusted readings are: a set used only as the right operand of "
+    "in / not in is membership by == (an unhashable member, a TypeError in CPython, is not represented: the source guards it), an "
+    "early-return loop over d.items() is the first returned value in insertion order, a try/except-Exception function body is its try body, "
+    "d.get on a non-dict is None (CPython raises: the equalities speak about dict resources), str() of floats/containers is the oracle's; "
+    "for the translated "
     "FRAGMENTS of policy.evaluate / policyset.decide (C02) also the fragment designation in pytolean.py (which statement range, which "
     "variables are inputs/outputs) — the same designation builds the Python function the translation is compared with — and, by hand, "
-    "what surrounds the fragments: variable initialisation, rule applicability (match_actions/match_resource/eval_condition), exceptions",
+    "what surrounds the fragments: variable initialisation, rule applicability (eval_condition; match_actions and match_resource are "
+    "translated and proved equal to the model: C03_translated, C05_translated), exceptions",
 ]
 
 
@@ -156,6 +162,10 @@ def run_obligation(name: str) -> tuple[bool, str]:
     """Compile one per-run obligation file lean/Rbacx/Run/<name>.lean on its own."""
     p = sh(["lake", "env", "lean", f"Rbacx/Run/{name}.lean"], cwd=LEAN, timeout=900)
     out = p.stdout + p.stderr
+    if p.returncode != 0:
+        # a theorem that does not check is elaborated with `sorryAx`: report the error itself, not the axiom listing that follows from it
+        first = out.find("error")
+        return False, out[max(first - 200, 0):][:2000] if first >= 0 else out[-2000:]
     # obligations that print the axioms of their theorems are held to the same standard as the library
     for m in re.finditer(r"'([^']+)' depends on axioms: \[([^\]]*)\]", out.replace("\n ", " ")):
         used = {x.strip() for x in m.group(2).split(",") if x.strip()}
